@@ -32,7 +32,8 @@ def check(tier, seed, t0):
     guards = [("genuine conflicts refused", c.get("genuine_conflicts_refused", 0), 40 * k), ("UIDs released by a UID change", c.get("uid_released_by_change", 0), 40 * k),
               ("UIDs released by delete", c.get("uid_released_by_delete", 0), 40 * k), ("UID reuses after release", c.get("uid_reused", 0), 40 * k),
               ("uid audits", c.get("uid_audits", 0) , 800 * k), ("store-API steps", c.get("store_steps", 0), 1500 * k), ("restarts", c.get("restarts", 0), 3),
-              ("histories on a calendar made by plain MKCOL + PROPPATCH resourcetype", c.get("cal0_created_by:mkcol-then-proppatch", 0), 1 if tier == "quick" else 6)]
+              ("histories on a calendar made by plain MKCOL + PROPPATCH resourcetype", c.get("cal0_created_by:mkcol-then-proppatch", 0), 1 if tier == "quick" else 6),
+              ("conflicting uploads under a name that differs from the holder's in letter case only", c.get("op:put_uidconflict_name_differs_in_case_only", 0), 10 * k)]
     return common.finish(PROP, tier, seed, "exploration", merged, failures, RULE, t0, guards=guards,
                          assumptions=["all non-VTIMEZONE components of a generated object share one UID, so 'the UID of a resource' is unambiguous", "UID comparison is exact on the unescaped TEXT value"])
 
